@@ -9,10 +9,11 @@ Definition with_flag (i : nat) (q : mquirks) : mquirks :=
   let b (k : nat) (v : bool) := if i =? k then false else v in
   Build_mquirks (b 0 (q_py_bool_is_number q)) (b 1 (q_py_upper_neg_flagged q)) (b 2 (q_py_upper_ann_flagged q))
                 (b 3 (q_py_upper_tuple_flagged q)) (b 4 (q_ts_hex_e_float q)) (b 5 (q_ts_bigint_dropped q))
-                (b 6 (q_ts_test_marker_anywhere q)) (b 8 (q_ts_single_letter_const q)) (b 7 (q_rs_hex_suffix_clash q)).
+                (b 6 (q_ts_test_marker_anywhere q)) (b 8 (q_ts_single_letter_const q)) (b 7 (q_rs_hex_suffix_clash q))
+                (b 9 (q_py_enumerate_kw_flagged q)) (b 10 (q_py_upper_binop_flagged q)).
 
 (* the flags that can influence a language *)
-Definition flag_ids (l : mlang) : list nat := match l with MPy => [0;1;2;3] | MTs => [4;5;6;8] | MRs => [7] end.
+Definition flag_ids (l : mlang) : list nat := match l with MPy => [0;1;2;3;9;10] | MTs => [4;5;6;8] | MRs => [7] end.
 
 (* candidates: the claimed vector, the claimed vector with one of the language's flags switched off, the ideal *)
 Definition candidates (l : mlang) (q : mquirks) : list mquirks := q :: map (fun i => with_flag i q) (flag_ids l) ++ [m_ideal].
